@@ -337,8 +337,8 @@ func (r *Rng) tokens(o *Out, max int) [][]byte {
 	if r.Chance(1, 30) {
 		// many tokens in one header
 		n = max + 1 + r.Intn(40)
-		if hdrThorough && r.Chance(1, 12) {
-			n = 50 + r.Intn(250)
+		if r.Chance(1, 3) {
+			n = 50 + r.Intn(250) // no list is too long to come back whole (a parser that stops splitting after N elements)
 		}
 		o.count("toks.n.many")
 	} else {
